@@ -853,3 +853,9 @@ Theorem type_prefix dbg rl items r :
   ne (map tok_data (pr_dropped r)) = [] ->
   exists suf, p_text_of (pr_tree r) ++ suf = concat (map item_data items).
 Proof. apply (prefix_gen g_type_entry type_entry_spec). Qed.
+
+(* the known class D3, on the result of a run: a ty::parse call popped a token with text that is neither a
+   Name nor `[` and returned it as an error instead of adding it to the tree *)
+Definition Known_D3 (r : presult) : Prop := ne (map tok_data (pr_dropped r)) <> [].
+Lemma not_known_D3 r : ~ Known_D3 r -> ne (map tok_data (pr_dropped r)) = [].
+Proof. unfold Known_D3. destruct (ne _); [reflexivity|]. intros H. exfalso. apply H. discriminate. Qed.
